@@ -58,7 +58,7 @@ Section FutureSpec.
         match r with C19_RBool b => Bool.eqb b (negb taken) | _ => false end && c19_spec_accept v taken enabled known tr'
     | C19_TOp C19_Ready r :: tr' =>
         if taken then   (* which of true / false / InvalidFutureException is not fixed by the property; no data may come out *)
-          match r with C19_RData _ | C19_RUnit => false | _ => true end && c19_spec_accept v taken enabled known tr'
+          match r with C19_RData _ | C19_RUnit | C19_RSent => false | _ => true end && c19_spec_accept v taken enabled known tr'
         else match r with
              | C19_RBool true => enabled && c19_spec_accept v taken enabled true tr'
              | C19_RBool false => negb known && c19_spec_accept v taken enabled known tr'
@@ -70,6 +70,11 @@ Section FutureSpec.
     | C19_TOp C19_Get r :: tr' =>
         if taken then match r with C19_RInvalid => true | _ => false end && c19_spec_accept v taken enabled known tr'
         else match r with C19_RData d => enabled && deqb d v | _ => false end && c19_spec_accept v true enabled true tr'
+    | C19_TOp C19_SendData r :: tr' =>
+        if taken then match r with C19_RInvalid => true | _ => false end && c19_spec_accept v taken enabled known tr'
+        else match r with C19_RSent => enabled | _ => false end && c19_spec_accept v taken enabled true tr'
+    | C19_TOp C19_MoveAssign r :: tr' =>
+        match r with C19_RBool b => negb b | _ => false end && c19_spec_accept v taken enabled known tr'
     | C19_TOp C19_Move r :: tr' =>
         (* the moved-from object is invalid *)
         match r with C19_RBool b => negb b | _ => false end && c19_spec_accept v taken enabled known tr'
